@@ -29,12 +29,17 @@ class SimInterrupt(SimFault, KeyboardInterrupt):
     """F2: Ctrl-C / 'interrupt kernel' in a notebook."""
 
 
+class SimExit(SimFault, SystemExit):
+    """F2/F3: an exit request (sys.exit in a callback, GeneratorExit-like unwinding): a BaseException that is neither
+    Exception nor KeyboardInterrupt"""
+
+
 class SimBodyError(SimFault, Exception):
     """F3: exception raised by user code the library calls (body of a with block,
     transform, callback)."""
 
 
-FAULT_TYPES = {"alloc": SimAllocFailure, "interrupt": SimInterrupt, "body": SimBodyError}
+FAULT_TYPES = {"alloc": SimAllocFailure, "interrupt": SimInterrupt, "exit": SimExit, "body": SimBodyError}
 
 DEFAULT_RECURSION = 1000
 
